@@ -108,8 +108,21 @@ def gen_case(ch: Chooser, excl=()):
         classes.append("opt:page_dir")
         nondefault += 1
     body = "Project text zq0x0w0.\n"
-    files["project.md"] = site.project_file(options, body)
-    return {"files": files, "options": options, "classes": classes, "nondefault": nondefault}
+    # where the project file and the output directory live
+    layout = ch.weighted([(3, "plain"), (1, "dotdot"), (1, "redundant")])
+    pfile, outdir = "project.md", "doc"
+    if layout == "dotdot":
+        pfile, outdir = "docs/project.md", "site"
+        options["src_dir"] = "../src"
+        options["output_dir"] = "../site"
+        if "page_dir" in options:
+            options["page_dir"] = "../pages"
+    elif layout == "redundant":
+        options["output_dir"] = "./build/../doc"
+    classes.append("layout:" + layout)
+    files[pfile] = site.project_file(options, body)
+    return {"files": files, "options": options, "classes": classes, "nondefault": nondefault, "project_file": pfile,
+            "outdir": outdir}
 
 
 def strategy(tier, excl):
@@ -139,8 +152,8 @@ def check(case) -> Result:
     res.sample = {"options": case["options"], "files": {k: v for k, v in list(case["files"].items())[:3]}}
     try:
         with fordapi.Sandbox(case["files"], prefix="vfw-c09-") as root:
-            data, out = site.build_site(root)
-            idx = site.SiteIndex(root / "doc")
+            data, out = site.build_site(root, case.get("project_file", "project.md"))
+            idx = site.SiteIndex(root / case.get("outdir", "doc"))
             problems = idx.check_links()
             npages = len(idx.pages)
     except SystemExit as e:
